@@ -49,7 +49,7 @@ def slim(c):
 
 def run(tier):
     rep = Report(PID, tier)
-    wd = workdir('c20')
+    wd = workdir('c20-' + tier)
     sd = seed()
     cfg = 'Rzx_mc.cfg' if tier == 'quick' else 'Rzx_mc_full.cfg'
     cbuild.build()
@@ -62,7 +62,7 @@ def run(tier):
             box['ex'] = ex
     th = threading.Thread(target=mc)
     th.start()
-    per = 7 if tier == "quick" else 250
+    per = 7 if tier == 'quick' else 150
     with mp.get_context('fork').Pool(16) as pool:
         parts = pool.map(rzxdrv.campaign, [(sd * 131 + k, per, wd, tier) for k in range(16)])
     log('C20: campaign done at %.1fs' % rep.timer.s())
@@ -141,5 +141,32 @@ def run(tier):
     rep.assumptions = ['zlib (RZX blocks, SZX pages) and the independent z80/szx decoder of C09 are trusted projections',
                        'the T-state counter is not part of the compared state (RZX playback is fetch-count based)',
                        'contended playback from .z80 snapshots (no MEMPTR) is claimed only for runs that do not depend on MEMPTR']
-    rmworkdir('c20')
+    rmworkdir('c20-' + tier)
     return rep.finish()
+
+
+def replay(path):
+    """Re-make the recording of a replay file (same seed), run the real tools on it again and let TLC judge."""
+    with open(path) as f:
+        d = json.load(f)
+    rp = d.get('replay') or {}
+    print('replay of %s: key %s' % (path, d.get('key')))
+    if 'rseed' not in rp:
+        print('  nothing to re-run in this replay file')
+        return 2
+    wd = workdir('c20-replay')
+    cbuild.preload()
+    cases, traces, stats = [], [], Counter()
+    rzxdrv.one_recording(rp['rseed'], wd, rp['rec'], rp['tier'], cases, traces, stats)
+    rep = Report(PID, 'replay')
+    rs, fails = tlc.judge('rzx', 'RzxCases', 'RzxCases.cfg', cases, casefile=os.path.join(wd, 'cases.json'))
+    for i, clause in fails:
+        c = cases[i]
+        print('  %s flags=%d impl=%s cmio=%s k=%s: %s' % (c['kind'], c['flags'], c.get('impl'), c.get('cmio'), c.get('k'), clause))
+    bad = judge_traces(rep, traces, wd) if traces else []
+    for t, l, clause in bad:
+        print('  trace %s cmio=%s line %d: %s' % (t['impl'], t['cmio'], l, clause))
+    rmworkdir('c20-replay')
+    print('REPRODUCED' if fails or bad else 'NOT-REPRODUCED')
+    return 1 if fails or bad else 0
+
